@@ -28,8 +28,22 @@ def tmpdir():
     return _TMP
 
 
+class _TagMap(dict):
+    """a caller's own dict subclass (insertion-ordered like every dict)"""
+
+
+def as_mapping(items, salt=0):
+    """the same ordered items as a plain dict, a collections.OrderedDict or a user-defined dict subclass (chosen from the data): a
+    description / comment map is 'a dict', and every dict keeps its insertion order"""
+    import collections
+
+    items = list(items)
+    k = (len(items) + salt + sum(len(v) for _, v in items)) % 3 if items else 0
+    return dict(items) if k == 0 else collections.OrderedDict(items) if k == 1 else _TagMap(items)
+
+
 def mk_component(c):
-    return Bf3Component(dict(c["desc"]), c["blob"], c.get("actual_len"), encrypt_by_session_key=bool(c.get("enc")))
+    return Bf3Component(as_mapping(c["desc"], len(c["blob"])), c["blob"], c.get("actual_len"), encrypt_by_session_key=bool(c.get("enc")))
 
 
 def mk_bf3(case):
@@ -42,7 +56,7 @@ def mk_bf3(case):
             hit = mk_component(c)
             objs.append((c, hit))
         comps.append(hit)
-    return Bf3File(dict(case.get("comments", [])), comps)
+    return Bf3File(as_mapping(case.get("comments", []), len(comps)), comps)
 
 
 def obs_component(c):
